@@ -22,7 +22,7 @@ var variantTmp string
 func register(id string, f ruleFn) { registry[id] = f }
 
 func main() {
-	prop := flag.String("property", "", "property id (C01…C39) or 'all'")
+	prop := flag.String("property", "", "property id (C01…C39), a comma-separated list of ids, or 'all'")
 	tier := flag.String("tier", "", "quick | thorough (default: $VERIF_TIER or quick)")
 	repo := flag.String("repo", "/repo", "path of the Bytom working tree to analyse")
 	verif := flag.String("verif", "/verif", "path of the verification directory (evidence, known findings)")
@@ -76,7 +76,7 @@ func main() {
 		*tier = "quick"
 	}
 	seed, _ := strconv.Atoi(os.Getenv("VERIF_SEED"))
-	ids := []string{*prop}
+	ids := strings.Split(*prop, ",")
 	if *prop == "all" {
 		ids = nil
 		for id := range registry {
